@@ -366,10 +366,23 @@ func genC13(rng *rand.Rand, n int, emit func(Case), dist map[string]int) {
 					}
 				}
 			}
+			junk := ""
+			if method == http.MethodPost && rng.Intn(5) == 0 {
+				// a query string net/url complains about (a semicolon, a bad escape) next to a perfectly good form body
+				junk = []string{"a=1;b=2", "a=%zz", "x;y"}[rng.Intn(3)]
+				dist["keyauth_form_with_unparsable_query"]++
+			}
 			build := func() *http.Request {
 				target := "/"
 				if len(q) > 0 {
 					target += "?" + q.Encode()
+				}
+				if junk != "" {
+					if len(q) > 0 {
+						target += "&" + junk
+					} else {
+						target += "?" + junk
+					}
 				}
 				var r *http.Request
 				if method == http.MethodPost {
